@@ -13,7 +13,7 @@ pkgdir=$(python3 -c "import json;print(json.load(open('$SD/meta.json')).get('dem
 for f in $SD/zz_seed*_test.go; do cp $f $WT/$pkgdir/; done
 run=$(python3 -c "import json;print(json.load(open('$SD/meta.json')).get('demo_run',''))")
 [ -z "$run" ] && run="go test -vet=off -count=1 -run TestSeed ./$pkgdir/"
-run=$(echo "$run" | sed 's/^export [^;]*; *//; s/^cd [^&]*&& *//')
+run=$(echo "$run" | sed 's/^export [^;&]*\(;\|&&\) *//; s/cd [^&;]*\(&&\|;\) *//g')
 sh -c "$run" > $OUT/$L.clean.log 2>&1; clean=$?
 if ! git apply --check $SD/patch.diff 2>/dev/null; then echo "$L: PATCH-DOES-NOT-APPLY clean_demo_exit=$clean"; git -C /repo worktree remove --force $WT; exit 3; fi
 git apply $SD/patch.diff
